@@ -108,37 +108,26 @@ def payload(kind):
     return _CACHE[kind]
 
 
-_FILES = {}
-
-
-def _real_file(kind):
-    """the image as a REAL file (the tool is given paths; real file objects buffer and have descriptors, BytesIO does not):
-    written once per process below /dev/shm, removed at exit"""
-    import atexit
+def _real_file(kind, d):
+    """the image as a REAL file below directory d (the tool is given paths; real file objects buffer and have descriptors,
+    BytesIO objects do not)"""
     import os
-    import shutil
-    import tempfile
-    if kind not in _FILES:
-        d = tempfile.mkdtemp(prefix="mcv-c11-", dir="/dev/shm" if os.path.isdir("/dev/shm") else None)
-        atexit.register(shutil.rmtree, d, True)
-        if kind == "cdda_file":
-            tracks = [{"number": 1, "title": "ONE", "indices": [(1, 0)]}, {"number": 2, "title": "TWO", "indices": [(1, 3)]},
-                      {"number": 3, "title": "THREE", "indices": [(1, 5)]}]
-            with open(os.path.join(d, "x.bin"), "wb") as f:
-                f.write(Q.bin_bytes(Q.SECTOR * 8 + 6))
-            with open(os.path.join(d, "x.cue"), "w") as f:
-                f.write(Q.cue_text("x.bin", tracks))
-            _FILES[kind] = os.path.join(d, "x.cue")
-        else:
-            with open(os.path.join(d, "image.img"), "wb") as f:
-                f.write(payload(kind[:-5]))
-            _FILES[kind] = os.path.join(d, "image.img")
-    return _FILES[kind]
+    if kind == "cdda_file":
+        tracks = [{"number": 1, "title": "ONE", "indices": [(1, 0)]}, {"number": 2, "title": "TWO", "indices": [(1, 3)]},
+                  {"number": 3, "title": "THREE", "indices": [(1, 5)]}]
+        with open(os.path.join(d, "x.bin"), "wb") as f:
+            f.write(Q.bin_bytes(Q.SECTOR * 8 + 6))
+        with open(os.path.join(d, "x.cue"), "w") as f:
+            f.write(Q.cue_text("x.bin", tracks))
+        return os.path.join(d, "x.cue")
+    with open(os.path.join(d, "image.img"), "wb") as f:
+        f.write(payload(kind[:-5]))
+    return os.path.join(d, "image.img")
 
 
-def open_fresh(kind):
+def open_fresh(kind, scratch=None):
     if kind.endswith("_file"):
-        img = tree.open_image(_real_file(kind))
+        img = tree.open_image(_real_file(kind, scratch))
     elif kind == "cdda":
         from smpl_extract.cuesheet import parse_cue_sheet
         from smpl_extract.cdda.image import CompactDiskAudioImageAdapter
@@ -164,9 +153,23 @@ class Ctx:
 
     def __init__(self, kind):
         self.kind = kind
-        self.img = open_fresh(kind)
+        self.scratch = None
+        if kind.endswith("_file"):
+            import os
+            import tempfile
+            self.scratch = tempfile.mkdtemp(prefix="mcv-c11-", dir="/dev/shm" if os.path.isdir("/dev/shm") else None)
+        self.img = open_fresh(kind, self.scratch)
         self.streams = {}
         self.transcoders = {}
+
+    def close(self):
+        if self.scratch:
+            import shutil
+            shutil.rmtree(self.scratch, ignore_errors=True)
+            self.scratch = None
+
+    def __del__(self):
+        self.close()
 
     def stream(self, path, view=0):
         # (view: a further stream of the SAME sample, obtained by asking the element again)
@@ -240,10 +243,13 @@ def run_schedule(kind, parts, seq):
     ctx = Ctx(kind)
     pos = [0] * len(parts)
     outs = [[] for _ in parts]
-    for i in seq:
-        op = parts[i]["ops"][pos[i]]
-        pos[i] += 1
-        outs[i].append(ctx.do(parts[i], op))
+    try:
+        for i in seq:
+            op = parts[i]["ops"][pos[i]]
+            pos[i] += 1
+            outs[i].append(ctx.do(parts[i], op))
+    finally:
+        ctx.close()
     return [b"|".join(o) if parts[i].get("stepwise") else b"".join(o) for i, o in enumerate(outs)]
 
 
